@@ -301,6 +301,12 @@ Theorem C06_nackwriter_cache : forall c nacks, Forall is16 nacks -> NoDup nacks 
 Proof. exact nack_writer_not_held. Qed.
 Print Assumptions C06_nackwriter_cache.
 
+(* GetPacket buffers every requested number at most once, whatever the order
+   of the requests: the NoDup hypothesis of C06_nackwriter *)
+Theorem C06_buffered_distinct : forall requests, NoDup (fold_left buffer_nack requests []).
+Proof. exact buffer_nacks_NoDup. Qed.
+Print Assumptions C06_buffered_distinct.
+
 (* ---- non-vacuity ---- *)
 (* a lossy history across the wrap: 65533, 65534, [65535 lost], 0, 1, [2 lost],
    3..8 through readLoop steps at rate 100 (packets = 2, unnacked = 2) *)
